@@ -200,6 +200,8 @@ def generate(rng: random.Random, cons: dict) -> dict:
     # memory layout of the label array the caller hands over: C-contiguous, Fortran order
     # (a y,x,t stack made time-first with moveaxis), or a strided crop of a larger array
     w["seg_layout"] = rng.choice(["C", "C", "C", "F", "crop"]) if seg else "C"
+    # positions handed over as numpy arrays instead of lists (the docstring allows both)
+    w["pos_array"] = (not seg) and w["pos_mode"] != "per_axis" and rng.random() < 0.25
     return w
 
 
@@ -250,9 +252,9 @@ def build(w: dict):
                 for a, v in zip(ax, nd["pos"]):
                     attrs[a] = v
             elif pos_mode == "renamed":
-                attrs["loc"] = list(nd["pos"])
+                attrs["loc"] = np.array(nd["pos"]) if w.get("pos_array") else list(nd["pos"])
             else:
-                attrs["pos"] = list(nd["pos"])
+                attrs["pos"] = np.array(nd["pos"]) if w.get("pos_array") else list(nd["pos"])
         if w["ids"] in ("adopted", "from_tracks+ids"):
             attrs[trk_key] = w["adopt"]["track"][k]
             attrs[lin_key] = w["adopt"]["lineage"][k]
